@@ -145,7 +145,7 @@ def _run_dorafacts(outfile):
         raise AnalysisError("dorafacts", r.stdout.strip()[-500:])
 
 
-def ensure_facts(verbose=True):
+def ensure_facts(verbose=True, _retry=0):
     """Return the directory holding facts for /repo's current working tree."""
     os.makedirs(CACHE, exist_ok=True)
     h = tree_hash()
@@ -176,6 +176,13 @@ def ensure_facts(verbose=True):
             with open(failed, "w") as fh:
                 fh.write("rsfacts\nonly %d fact files written" % n)
             raise AnalysisError("rsfacts", "only %d fact files written" % n)
+        if tree_hash() != h:
+            # the tree changed while facts were being extracted: they describe no consistent state
+            shutil.rmtree(d, ignore_errors=True)
+            if _retry < 3:
+                fcntl.flock(lock, fcntl.LOCK_UN)
+                return ensure_facts(verbose, _retry + 1)
+            raise AnalysisError("facts", "/repo keeps changing while facts are extracted")
         with open(os.path.join(d, "OK"), "w") as fh:
             fh.write("%.1f\n" % (time.time() - t0))
         if verbose:
